@@ -17,7 +17,7 @@ def run(tier, seed, ev):
     sc = V.scratch("c05")
     cases = HG.corpus_cases()
     ev.set("corpus_headers", len(cases))
-    n = 12000 if tier == "quick" else 150000
+    n = 12000 if tier == "quick" else 800000
     for i in range(n):
         cases.append(HG.wellformed_header(rng, level=i % 4))
     # every subset-order of the supported extended headers up to length 3 (thorough: 4), by type
